@@ -258,6 +258,40 @@ impl<const CAP: usize> std::io::Write for FaultyWrite<CAP> {
     }
 }
 
+/// A byte sink that never fails but accepts only part of what it is offered:
+/// every `write` call takes a symbolic `1 <= k <= len` bytes (pipe / socket style).
+#[cfg(kani)]
+pub struct ShortWrite<const CAP: usize> {
+    pub sink: [u8; CAP],
+    pub len: usize,
+    pub calls: usize,
+}
+
+#[cfg(kani)]
+impl<const CAP: usize> ShortWrite<CAP> {
+    pub fn new() -> Self {
+        Self { sink: [0; CAP], len: 0, calls: 0 }
+    }
+}
+
+#[cfg(kani)]
+impl<const CAP: usize> std::io::Write for ShortWrite<CAP> {
+    fn write(&mut self, buf: &[u8]) -> std::io::Result<usize> {
+        self.calls += 1;
+        if buf.is_empty() {
+            return Ok(0);
+        }
+        let k: usize = kani::any();
+        kani::assume(k >= 1 && k <= buf.len() && self.len + k <= CAP);
+        self.sink[self.len..self.len + k].copy_from_slice(&buf[..k]);
+        self.len += k;
+        Ok(k)
+    }
+    fn flush(&mut self) -> std::io::Result<()> {
+        Ok(())
+    }
+}
+
 /// A byte source with the same fault model. `Ok(0)` is returned only at the end
 /// of the data (the `std::io::Read` contract).
 #[cfg(kani)]
